@@ -178,17 +178,21 @@ def judge(ctx, groups):
         # design level (drift, not a violation): the closure calls of the real newton() runs against module NewtonP over
         # doubles (each pass: f then jac at the current iterate; the next iterate satisfies the Newton equation; the loop
         # ends exactly when the step is within the tolerance)
-        nrows = [{"id": r["id"], "method": r["method"], "dim": r["dim"], "start": r["start"], "tol": r["tol"], "n_max": r["n_max"], "obs": r["obs"]}
-                 for r in rows if r["method"] == "newton"]
-        if nrows:
+        # ... and of the real secant() runs against Broyden's method in its defining form (SecantP: central-difference matrix,
+        # B s = -f, forward rank-one update), while the code keeps the inverse and updates it by Sherman-Morrison
+        for meth, module in (("newton", "Trace_Newton"), ("secant", "Trace_Secant")):
+            nrows = [{"id": r["id"], "method": r["method"], "dim": r["dim"], "start": r["start"], "h": r.get("h", r["tol"]), "tol": r["tol"],
+                      "n_max": r["n_max"], "obs": r["obs"]} for r in rows if r["method"] == meth]
+            if not nrows:
+                continue
             ndrift = len(ctx.drift)
-            fncommon.validate(ctx, nrows, "Trace_Newton", "dlnw%d" % gi, nshards=8)
+            fncommon.validate(ctx, nrows, module, "dl%s%d" % (meth, gi), nshards=8)
             ctx.traces -= len(nrows)
-            st = [x for x in ctx.notes.get("_stat", []) if x and x[0] == "newton_runs_explained"]
-            ctx.notes["_stat"] = [x for x in ctx.notes.get("_stat", []) if not (x and x[0] == "newton_runs_explained")]
+            st = [x for x in ctx.notes.get("_stat", []) if x and x[0] == meth + "_runs_explained"]
+            ctx.notes["_stat"] = [x for x in ctx.notes.get("_stat", []) if not (x and x[0] == meth + "_runs_explained")]
             for key, v in (("validated_against_design", len(nrows)), ("explained", sum(x[1] for x in st)),
-                           ("set_aside_as_borderline", sum(x[3] for x in st)), ("drifted", len(ctx.drift) - ndrift)):
-                ctx.notes["newton_runs_%s" % key] = ctx.notes.get("newton_runs_%s" % key, 0) + v
+                           ("set_aside", sum(x[3] for x in st)), ("drifted", len(ctx.drift) - ndrift)):
+                ctx.notes["%s_runs_%s" % (meth, key)] = ctx.notes.get("%s_runs_%s" % (meth, key), 0) + v
         # design level (drift, not a violation): every evaluation of the map and the returned number of the real
         # steffensen() runs against module Steffensen over doubles
         srows = [{"id": r["id"], "method": r["method"], "start": r["start"], "tol": r["tol"], "n_max": r["n_max"], "obs": r["obs"]}
@@ -215,6 +219,7 @@ def run(ctx):
     rng = random.Random(ctx.seed)
     vlib.e1(ctx, "MC_Steffensen", "Steffensen", ["Begin", "Pass"], workers=2, timeout=600)
     vlib.e1(ctx, "MC_NewtonP", "NewtonP", ["Begin", "Iter", "SolveFail", "GiveUp"], workers=2, timeout=600)
+    vlib.e1(ctx, "MC_SecantP", "SecantP", ["Begin", "Iter", "GiveUp"], workers=2, timeout=600)
     affine = fncommon.gen_tlc(ctx, "Gen_C08", "c08")
     n = 1 if ctx.tier == "quick" else 8
     judge(ctx, [affine + systems(rng, 800 * n), polys(rng, 400 * n), steff(rng, 200 * n)])
